@@ -38,6 +38,8 @@ def run(rep, ctx):
     rep.run_rule("C14.R5", "shipped tables: every quantity type's first-listed unit is an identity base row (exhaustive)", r5_table_base, ctx)
     rep.run_rule("C14.R6", "shipped tables: every category is consistent with its quantity type (exhaustive)", r6_categories, ctx)
     rep.run_rule("C14.R7", "shipped default table: every unit resolves to a category of its own quantity type; symbols unique (exhaustive)", r7_units, ctx)
+    from . import c12
+    rep.run_rule("C14.R8", "registration code: every given or inherited default value is asserted against the final limits; derived defaults only from inclusive limits; default unit drawn from the quantity type", c12.r6_registration, ctx, "C14.R8")
     rep.not_decided += [
         "step-by-step agreement with a reference model for arbitrary argument values (only ordering, ownership and table facts are decided)",
         "AddCategory's default-value derivation for non-literal limits",
